@@ -399,6 +399,44 @@ func LenientBase64(s string) ([]byte, bool) {
 	return out, true
 }
 
+// PlainLit draws a literal in its plainest spelling that every kind of the
+// attribute's family accepts: a string, a boolean, a time of four-digit year
+// in RFC 3339 with an upper-case T, padded standard base64, an integer between
+// 0 and 100; null one time in five when the attribute is nullable.
+func PlainLit(t *rapid.T, attr jsonapi.Attr, label string) Lit {
+	if attr.Nullable && rapid.IntRange(0, 4).Draw(t, label+"-plain-null") == 0 {
+		return Lit{JSONKind: "null", Text: "null", Spelling: "null", Canonical: true}
+	}
+
+	switch attr.Type {
+	case jsonapi.AttrTypeString:
+		s := rapid.SampledFrom([]string{"", "a", "x y", "é€", "0", "null"}).Draw(t, label+"-plain-s")
+		l := Lit{JSONKind: "string", Text: QuoteJSON(s), Str: s, Spelling: "minimal", Canonical: true}
+		l.Bytes, l.HasBytes = LenientBase64(s)
+
+		return l
+	case jsonapi.AttrTypeBool:
+		b := rapid.Bool().Draw(t, label+"-plain-b")
+		return Lit{JSONKind: "bool", Text: fmt.Sprint(b), Bool: b, Spelling: "bool", Canonical: true}
+	case jsonapi.AttrTypeTime:
+		tm := time.Date(rapid.IntRange(1970, 2100).Draw(t, label+"-plain-year"), 3, 4, 5, 6, 7, rapid.SampledFrom([]int{0, 500000000, 123456789}).Draw(t, label+"-plain-ns"),
+			rapid.SampledFrom([]*time.Location{time.UTC, time.FixedZone("", 3600), time.FixedZone("", -12600)}).Draw(t, label+"-plain-zone"))
+		txt := tm.Format(time.RFC3339Nano)
+		l := Lit{JSONKind: "string", Text: `"` + txt + `"`, Str: txt, Spelling: "rfc3339nano", Canonical: true, HasInstant: true, Instant: tm}
+		l.Bytes, l.HasBytes = LenientBase64(txt)
+
+		return l
+	case jsonapi.AttrTypeBytes:
+		b := []byte(rapid.SampledFrom([]string{"", "a", "\x00\xff", "hello, world", "\xfb\xef\xbe"}).Draw(t, label+"-plain-y"))
+		txt := base64.StdEncoding.EncodeToString(b)
+
+		return Lit{JSONKind: "string", Text: `"` + txt + `"`, Str: txt, Spelling: "base64/std", Canonical: true, HasBytes: true, Bytes: b}
+	default:
+		n := big.NewInt(int64(rapid.IntRange(0, 100).Draw(t, label+"-plain-n")))
+		return Lit{JSONKind: "number", Rat: new(big.Rat).SetInt(n), Integral: true, Int: n, Text: n.String(), Spelling: "plain", Canonical: true}
+	}
+}
+
 // AnyLit draws a literal for an attribute of the given kind: mostly of the
 // JSON kind the attribute expects (in varied spellings), otherwise ill-typed.
 func AnyLit(t *rapid.T, attr jsonapi.Attr, label string, illPerTen int) Lit {
